@@ -184,10 +184,10 @@ def _rand_op(rng, ln, pool):
         j = _idx(rng, ln)
         if j == i: j = (i + 1) % max(1, ln)
         return [name, i, j, _g(rng, -2, 2)]
-    if name == "shift":
-        return [name, i, rng.choice([1.0, -1.0, 0.5, -0.5, 0.0])]
+    if name == "shift":     # (2**-30: a change far below any "close enough" tolerance, but a change)
+        return [name, i, rng.choice([1.0, -1.0, 0.5, -0.5, 0.0, 2.0 ** -30, -2.0 ** -30])]
     if name == "scale":
-        return [name, i, rng.choice([0.5, 2.0, -1.0, 0.0, 1.0])]
+        return [name, i, rng.choice([0.5, 2.0, -1.0, 0.0, 1.0, 1.0 + 2.0 ** -30])]
     if name == "swap":
         return [name, i, _idx(rng, ln)]
     if name == "neg":
